@@ -197,6 +197,9 @@ pub enum Cmd {
     Push,
     Pop,
     PrintSize(Name),
+    /// (rewrite lhs rhs :ruleset rs :name "r<id>") / birewrite — NOT in the Gallina model (link-only):
+    /// sessions containing one are compared on the engine but produce no model case
+    Rewrite { id: usize, rs: Option<Name>, lhs: Expr, rhs: Expr, bi: bool },
 }
 
 fn names_text(v: &[Name]) -> String {
@@ -253,7 +256,21 @@ impl Cmd {
             Cmd::Push => "(push)".into(),
             Cmd::Pop => "(pop)".into(),
             Cmd::PrintSize(n) => format!("(print-size {})", n.text()),
+            Cmd::Rewrite { id, rs, lhs, rhs, bi } => format!(
+                "({} {} {}{} :name \"r{}\")",
+                if *bi { "birewrite" } else { "rewrite" },
+                lhs.text(),
+                rhs.text(),
+                match rs {
+                    None => String::new(),
+                    Some(r) => format!(" :ruleset {}", r.text()),
+                },
+                id
+            ),
         }
+    }
+    pub fn is_modelled(&self) -> bool {
+        !matches!(self, Cmd::Rewrite { .. })
     }
     pub fn coq(&self) -> String {
         match self {
@@ -294,6 +311,7 @@ impl Cmd {
             Cmd::Push => "CPush".into(),
             Cmd::Pop => "CPop".into(),
             Cmd::PrintSize(n) => format!("CPrintSize {}", n.coq()),
+            Cmd::Rewrite { .. } => "CUNSUPPORTED".into(),
         }
     }
     pub fn kind(&self) -> &'static str {
@@ -315,6 +333,8 @@ impl Cmd {
             Cmd::Push => "push",
             Cmd::Pop => "pop",
             Cmd::PrintSize(_) => "print-size",
+            Cmd::Rewrite { bi: false, .. } => "rewrite",
+            Cmd::Rewrite { bi: true, .. } => "birewrite",
         }
     }
     /// every name mentioned (for the observation universe)
@@ -393,6 +413,13 @@ impl Cmd {
             Cmd::Act(a) => ac(a, out),
             Cmd::Run(Some(r), _) => out.push(*r),
             Cmd::Check(fs) => fs.iter().for_each(|f| fa(f, out)),
+            Cmd::Rewrite { rs, lhs, rhs, .. } => {
+                if let Some(r) = rs {
+                    out.push(*r)
+                }
+                ex(lhs, out);
+                ex(rhs, out);
+            }
             _ => {}
         }
     }
